@@ -396,6 +396,7 @@ theorem parseLoop_doc (nS : String) (labels : List String) (cs : List Cmd)
   rw [parseTrees_block cs hc _ (by omega)]
   simp only [List.nil_append]
   rw [parseLoop, parseLoop]
+  simp
 
 /- ## the name of a tree (`tree<id>`) is not a keyword -/
 
